@@ -719,8 +719,8 @@ def gen_trace(item):
     obs, good = _tlc_safe(project(obj))
     events.append({"op": "new", "arg": S0, "oc": oc, "out": out, "obs": obs})
     for _ in range(item["length"]):
-        if not good:
-            break  # nothing can be said about what follows an incoherent object
+        if not good or any("!" in x for x in obs["ex"]):
+            break  # nothing can be said about what follows an incoherent / corrupted object
         kind = "array" if isinstance(obj, struc.AtomArray) else "stack"
         n = obj.array_length()
         d = 1 if kind == "array" else obj.stack_depth()
@@ -812,6 +812,54 @@ def gen_trace(item):
 
 # --------------------------------------------------------------------------- classification
 F_ZERO_DIM = "C01-zero-dim-array-index"
+F_ATOM_VIEW = "C01-get-atom-shares-array-valued-annotation"
+F_REPEAT_SHAPED = "C01-repeat-array-valued-annotation"
+
+
+def _same_but_ex(exp_S, obs_S):
+    try:
+        a, b = _canon(exp_S), _canon(obs_S)
+    except (KeyError, TypeError, IndexError):
+        return False
+    return all(a[k] == b[k] for k in ("kind", "a", "z", "box", "bonds"))
+
+
+def _classify_shaped(mm):
+    """The two listed findings about array-valued annotations (see findings.d/C01.json); each is
+    returned only for exactly its shape."""
+    op, arg, bad = mm.get("op"), mm.get("arg"), mm.get("bad")
+    exp, obs = mm.get("expected") or {}, mm.get("observed") or {}
+    eS, oS = exp.get("S"), obs.get("S")
+    if not isinstance(eS, dict) or not isinstance(oS, dict) or exp.get("oc") != "ok":
+        return None
+    e_ex, o_ex = sorted(eS.get("ex", ())), sorted(oS.get("ex", ()))
+    shaped = [x for x in e_ex if x in SHAPED]
+    if not shaped or any("!" in x for x in e_ex) or _is_incoherent(oS):
+        return None
+    n = len(eS["a"])
+    if op == "swap_atoms" and bad == ["state"] and obs.get("oc") == "ok":
+        # tmp = a[i]; a[i] = a[j]; a[j] = tmp with i, j different atoms: exactly the array-valued
+        # categories no longer follow the atoms, everything else is as expected
+        want = sorted(f"{x}!not-following-atoms" if x in SHAPED else x for x in e_ex)
+        if n and arg[0] % n != arg[1] % n and o_ex == want and _same_but_ex(eS, oS):
+            return F_ATOM_VIEW
+        return None
+    if op == "take_then_overwrite" and bad == ["out"] and obs.get("oc") == "ok":
+        eo, oo = exp.get("out"), obs.get("out")
+        if (isinstance(eo, (list, tuple)) and isinstance(oo, (list, tuple)) and len(eo) == 4 and len(oo) == 4
+                and list(eo[:3]) == list(oo[:3])
+                and sorted(oo[3]) == sorted(f"{x}!not-the-atoms-value" if x in SHAPED else x for x in eo[3])):
+            return F_ATOM_VIEW
+        return None
+    if op == "repeat" and arg and arg[0] >= 2:
+        if n > 0 and obs.get("oc") == "Rejected" and bad == ["oc", "state"] and len(oS.get("a", ())) * arg[0] == n:
+            return F_REPEAT_SHAPED
+        if n == 0 and obs.get("oc") == "ok" and bad == ["state"] and _same_but_ex(eS, oS):
+            # no atoms: accepted, but the per-atom shape is multiplied instead of the length
+            if len(o_ex) == len(e_ex) and all(
+                    (o == e) if e not in SHAPED else o.startswith(f"{e}!shape(0, ") for e, o in zip(e_ex, o_ex)):
+                return F_REPEAT_SHAPED
+    return None
 
 
 def _is_incoherent(S):
@@ -827,7 +875,11 @@ def classify(mm):
     an AtomArrayStack whose model axis has collapsed (2-D coord, (3,3) box).  Exactly that shape:
     operation `index`, at least one "a0" component, and either expected ok / observed refusal, or
     observed a stack with collapsed coordinates while an "a0" is in the model position."""
-    if mm.get("op") != "index" or mm.get("kind") not in ("step", "event"):
+    if mm.get("kind") not in ("step", "event"):
+        return None
+    if mm.get("op") in ("swap_atoms", "take_then_overwrite", "repeat"):
+        return _classify_shaped(mm)
+    if mm.get("op") != "index":
         return None
     arg, exp, obs = mm.get("arg"), mm.get("expected") or {}, mm.get("observed") or {}
     if not arg:
@@ -987,6 +1039,7 @@ def run(ctx):
         "coordinates are exactly representable float32 triples (c, c/2, -c) of an integer cell c",
         "index arrays with duplicates on an object with a bond list are refused (documented NotImplementedError); boolean masks have exactly n entries",
         "index forms (Dom_Form): an integer is a Python int, a numpy integer scalar (int8..uint64) that can hold it, or - for reading only - a zero-dimensional integer ndarray; an index array is a list of ints or an integer ndarray (int8..uint64); a mask is a bool ndarray or a list of bools; slice bounds are Python or numpy ints. Deletion and assignment positions (documented as int) take the scalar forms only (Dom_IntForm)",
+        "optional annotations hold one value per atom that is a scalar (b_factor, flag, label) or an array (specification ShapedExtras / PerAtomShape: vec = 3 float32, grid = 2x2 integers, names = 2 strings; annotation arrays of shape (n,3), (n,2,2), (n,2)); they are given to containers with add_annotation(dtype=(float32, 3)) + in-place fill or set_annotation; array() from Atoms with array-valued keyword arguments is not asserted (construction from Atoms is not an operation of the statement; it yields object arrays); objects with array-valued annotations take the calls of the exhaustive universe in the default index forms only (forms x shapes are mixed in the recorded histories)",
         "aliasing of views (slices, get_array) is not modelled: only copy() independence is claimed",
         "stack[i] = atom and atom deletion on stacks are not public operations and are not generated",
         "exhaustive model: <= 4 atoms, <= 2 models, one or two calls after construction; longer histories through recorded traces",
@@ -1075,6 +1128,6 @@ def replay(record):
 
 MANIFEST = {
     "technique": "TLA+ reference model of AtomArray/AtomArrayStack (specs/C01) model-checked by TLC; every transition of the state graph replayed into real objects (projection + public == against a from-scratch reference object); recorded random histories validated by TLC",
-    "level_text": "The specification is the property's list-of-atoms reference model: atoms with identity, per-model coordinate cells, per-model boxes, a positional bond mapping and optional annotations, with one operator per public operation (1-D and 2-D indexing with every index kind incl. negatives and Ellipsis, every index and every integer position of deletion / assignment in every FORM numpy accepts - Python int, numpy integer scalars int8..uint64, zero-dimensional integer array, list or integer ndarray of every dtype, bool ndarray or list of bools, slices with numpy bounds - in every tuple position, concatenation in both orders with operands lacking bonds/box/annotations, stack(), repeat(), from_template(), atom and model deletion, element and model assignment, annotation / bonds / box edits, copy and in-place mutation of copies). TLC explores every call on 56 constructed objects (<= 3 atoms, <= 2 models, with and without bonds / box / optional annotations) exhaustively and checks Coherent, RefusalIsNoOp and BondsFollowAtoms; all transitions are executed against the real classes, comparing the full projection, the outcome class, returned atoms, and the public == against an object rebuilt from the expected state with array()/stack(); longer histories on bigger objects are recorded and re-computed by TLC.",
-    "level_note": "Bounded exhaustive part: construction + 1 call (quick: core index forms; thorough: all forms) / + 2 calls (thorough, default forms), <= 4 atoms, <= 2 models. Annotation dtypes covered: int, float, bool, str. View aliasing is not modelled. Trusted: TLC, TLA+ value parser, numpy, the projection function.",
+    "level_text": "The specification is the property's list-of-atoms reference model: atoms with identity, per-model coordinate cells, per-model boxes, a positional bond mapping and optional annotations whose per-atom value is a scalar or itself an array (annotation arrays with more than one dimension), with one operator per public operation (1-D and 2-D indexing with every index kind incl. negatives and Ellipsis, every index and every integer position of deletion / assignment in every FORM numpy accepts - Python int, numpy integer scalars int8..uint64, zero-dimensional integer array, list or integer ndarray of every dtype, bool ndarray or list of bools, slices with numpy bounds - in every tuple position, concatenation in both orders with operands lacking bonds/box/annotations, stack(), repeat(), from_template(), atom and model deletion, element and model assignment, annotation / bonds / box edits, copy and in-place mutation of copies). TLC explores every call on 78 constructed objects (<= 3 atoms, <= 2 models, with and without bonds / box / optional annotations) exhaustively and checks Coherent, RefusalIsNoOp and BondsFollowAtoms; all transitions are executed against the real classes, comparing the full projection, the outcome class, returned atoms, and the public == against an object rebuilt from the expected state with array()/stack(); longer histories on bigger objects are recorded and re-computed by TLC.",
+    "level_note": "Bounded exhaustive part: construction + 1 call (quick: core index forms; thorough: all forms) / + 2 calls (thorough, default forms), <= 4 atoms, <= 2 models. Annotation dtypes covered: int, float, bool, str, each also as array-valued per-atom values ((n,3) float32, (n,2,2) int, (n,2) str) on arrays and stacks (22 further constructed objects; default index forms). View aliasing is not modelled. Trusted: TLC, TLA+ value parser, numpy, the projection function.",
 }
